@@ -243,6 +243,9 @@ def run_fonts(report, n, rng):
                 if bytes(sd[g].imageData) != png:
                     probs.append(f"{g}: CBDT image differs from the source PNG")
                 px_adv = sd[g].metrics.Advance
+                top = sd[g].metrics.BearingY
+                if abs(top - asc * ppem / upem) > 2.0:
+                    probs.append(f"{g}: CBDT BearingY {top} px, the ascender at this ppem is {asc * ppem / upem:.1f} px")
             else:
                 stl = list(font["sbix"].strikes.values())
                 if len(stl) != 1 or g not in stl[0].glyphs or bytes(stl[0].glyphs[g].imageData) != png:
@@ -250,6 +253,9 @@ def run_fonts(report, n, rng):
                     continue
                 ppem = stl[0].ppem
                 px_adv = None
+                bottom = stl[0].glyphs[g].originOffsetY  # bottom edge of the bitmap relative to the baseline, y up
+                if abs(bottom - desc * ppem / upem) > 2.0:
+                    probs.append(f"{g}: sbix originOffsetY {bottom} px, the descender at this ppem is {desc * ppem / upem:.1f} px")
             if ppem != want_ppem:
                 probs.append(f"{g}: strike ppem {ppem} != round(upem*height/em) = {want_ppem}")
             scaled = adv * ppem / upem
